@@ -98,6 +98,29 @@ def build_transform(tspec):
     raise ValueError(tspec)
 
 
+def transform_ctor(tspec):
+    """(class, args, kwargs) of the outermost transform object; inner objects are built here, ahead of time."""
+    from grid import rtransform as rt
+
+    k = tspec[0]
+    if k == "inv":
+        return rt.InverseRTransform, (build_transform(tspec[1]),), {}
+    table = {
+        "identity": (rt.IdentityRTransform, (), {}), "linfinite": (rt.LinearFiniteRTransform, tuple(tspec[1:3]), {}),
+        "becke": (rt.BeckeRTransform, tuple(tspec[1:3]), {}), "knowles": (rt.KnowlesRTransform, tuple(tspec[1:4]), {}),
+        "handy": (rt.HandyRTransform, tuple(tspec[1:4]), {}), "handymod": (rt.HandyModRTransform, tuple(tspec[1:4]), {}),
+        "multiexp": (rt.MultiExpRTransform, tuple(tspec[1:3]), {}),
+    }
+    if k in table:
+        return table[k]
+    if k in ("exp", "power", "lininf"):
+        cls = {"exp": rt.ExpRTransform, "power": rt.PowerRTransform, "lininf": rt.LinearInfiniteRTransform}[k]
+        return cls, (tspec[1], tspec[2]), {"b": tspec[3]}
+    if k == "hyperbolic":
+        return rt.HyperbolicRTransform, (tspec[1], tspec[2]), {}
+    raise ValueError(tspec)
+
+
 def x_interval_for(tspec, rng):
     """An interval of the original variable inside the transform's domain where the map is tame."""
     if tspec is None or tspec[0] == "identity":
@@ -150,6 +173,27 @@ def gen_transform(rng):
 # ---- problems ----------------------------------------------------------------------------------------
 
 
+GROUPS = {"linfinite": 1, "becke": 1, "knowles": 1, "handy": 1, "handymod": 1, "multiexp": 1, "exp": 2, "power": 2, "lininf": 2, "hyperbolic": 2, "inv": 3, "identity": 0}
+
+
+def gen_alternates(rng, tspec, k):
+    """Other admissible maps for the same x-interval: same domain group, other family and/or parameters."""
+    out = []
+    if tspec is None:
+        return out
+    g = GROUPS[tspec[0]]
+    for _ in range(60):
+        if len(out) >= k:
+            break
+        t = gen_transform(rng)
+        if t == tspec or t in out:
+            continue
+        # (IdentityRTransform declares the domain (0, inf): usable only where the x-interval is positive)
+        if GROUPS[t[0]] == g or (t[0] == "identity" and g in (2, 3)):
+            out.append(t)
+    return out
+
+
 def gen_problem(rng, with_transform):
     order = rng.choices([1, 2, 3], weights=[1, 3, 2])[0]
     tspec = gen_transform(rng) if with_transform else None
@@ -182,7 +226,8 @@ def gen_problem(rng, with_transform):
         bc = rng.choice([[[0, 0], [1, 0]], [[0, 0], [1, 1]], [[0, 1], [1, 0]]])
     else:
         bc = rng.choice([[[0, 0], [0, 1], [1, 0]], [[0, 0], [1, 0], [1, 1]], [[0, 0], [0, 1], [0, 2]]])
-    return {"order": order, "a": round(a, 4), "b": round(b, 4), "terms": terms, "coeffs": coeffs, "bc": bc, "tspec": tspec,
+    alts = gen_alternates(rng, tspec, rng.choice([0, 1, 2, 2])) if tspec is not None and tspec[0] != "identity" else []
+    return {"order": order, "a": round(a, 4), "b": round(b, 4), "terms": terms, "coeffs": coeffs, "bc": bc, "tspec": tspec, "alts": alts,
             "n": rng.randint(8, 30), "tol": rng.choice([1e-4, 1e-6, 1e-6])}
 
 
